@@ -31,55 +31,48 @@ IPAHi(s) == SubSeq(s, Len(s) \div 2 + 1, Len(s))
 IPAFoldScalars(lo, hi, x) == [i \in 1 .. Len(lo) |-> FAdd(WR, lo[i], FMul(WR, x, hi[i]))]
 IPAFoldPoints(lo, hi, x)  == [i \in 1 .. Len(lo) |-> EAdd(lo[i], EMul(x, hi[i]))]
 
-(* Prover.  Returns [proof, tr (transcript afterwards), y (claimed value <a,b>)] *)
+(* Prover.  Returns [proof, tr (transcript afterwards), y (claimed value <a,b>), w, xs (the challenges)].
+   ELet is the eager let of module Num: ELet(v, LAMBDA x : body) means LET x == v IN body, v evaluated once. *)
+IPARound(S, q) ==
+  ELet(<<IPALo(S.a), IPAHi(S.a), IPALo(S.b), IPAHi(S.b), IPALo(S.G), IPAHi(S.G)>>, LAMBDA h :      \* aL aR bL bR GL GR
+  ELet(<<EAdd(EMsm(h[2], h[5]), EMul(FInner(WR, h[2], h[3]), q)),                                  \* C_L = <a_R, G_L> + <a_R, b_L> q
+         EAdd(EMsm(h[1], h[6]), EMul(FInner(WR, h[1], h[4]), q))>>, LAMBDA LR :                     \* C_R = <a_L, G_R> + <a_L, b_R> q
+  ELet(TAppendPoint(TAppendPoint(S.tr, LblL, LR[1]), LblR, LR[2]), LAMBDA t3 :
+  ELet(TChallengeValue(t3, LblX), LAMBDA x :
+  ELet(FInv(WR, x), LAMBDA xi :
+    [tr |-> TAfterChallenge(t3, LblX),
+     a  |-> IPAFoldScalars(h[1], h[2], x),
+     b  |-> IPAFoldScalars(h[3], h[4], xi),
+     G  |-> IPAFoldPoints(h[5], h[6], xi),
+     L  |-> Append(S.L, LR[1]), R |-> Append(S.R, LR[2]), xs |-> Append(S.xs, x)])))))
 IPAProve(tr0, cfg, ap, C, a0, z) ==
-  LET b0  == IPABVector(ap, z)
-      y   == FInner(WR, a0, b0)
-      t1  == TAppendScalar(TAppendScalar(TAppendPoint(TDomainSep(tr0, LblIpa), LblC, C), LblInput, z), LblOutput, y)
-      w   == TChallengeValue(t1, LblW)
-      t2  == TAfterChallenge(t1, LblW)
-      q   == EMul(w, cfg.Q)
-      st  == FoldLeft(LAMBDA S, round :
-                        LET aL == IPALo(S.a)  aR == IPAHi(S.a)
-                            bL == IPALo(S.b)  bR == IPAHi(S.b)
-                            GL == IPALo(S.G)  GR == IPAHi(S.G)
-                            zL == FInner(WR, aR, bL)
-                            zR == FInner(WR, aL, bR)
-                            CL == EAdd(EMsm(aR, GL), EMul(zL, q))
-                            CR == EAdd(EMsm(aL, GR), EMul(zR, q))
-                            t3 == TAppendPoint(TAppendPoint(S.tr, LblL, CL), LblR, CR)
-                            x  == TChallengeValue(t3, LblX)
-                            xi == FInv(WR, x)
-                        IN  [tr |-> TAfterChallenge(t3, LblX),
-                             a  |-> IPAFoldScalars(aL, aR, x),
-                             b  |-> IPAFoldScalars(bL, bR, xi),
-                             G  |-> IPAFoldPoints(GL, GR, xi),
-                             L  |-> Append(S.L, CL), R |-> Append(S.R, CR)],
-                      [tr |-> t2, a |-> a0, b |-> b0, G |-> cfg.G, L |-> <<>>, R |-> <<>>],
-                      [i \in 1 .. WRounds |-> i])
-  IN  [proof |-> [L |-> st.L, R |-> st.R, a |-> st.a[1]], tr |-> st.tr, y |-> y]
+  ELet(IPABVector(ap, z), LAMBDA b0 :
+  ELet(FInner(WR, a0, b0), LAMBDA y :
+  ELet(TAppendScalar(TAppendScalar(TAppendPoint(TDomainSep(tr0, LblIpa), LblC, C), LblInput, z), LblOutput, y), LAMBDA t1 :
+  ELet(TChallengeValue(t1, LblW), LAMBDA w :
+  ELet(EMul(w, cfg.Q), LAMBDA q :
+  ELet(FoldLeft(LAMBDA S, round : IPARound(S, q),
+                [tr |-> TAfterChallenge(t1, LblW), a |-> a0, b |-> b0, G |-> cfg.G, L |-> <<>>, R |-> <<>>, xs |-> <<>>],
+                [i \in 1 .. WRounds |-> i]), LAMBDA st :
+    [proof |-> [L |-> st.L, R |-> st.R, a |-> st.a[1]], tr |-> st.tr, y |-> y, w |-> w, xs |-> st.xs]))))))
 
-(* Verifier (textbook).  Returns [ok, shapeErr, tr]. *)
+(* Verifier (textbook).  Returns [ok, err, tr]. *)
+IPAVerifyRound(S, proof, k) ==
+  ELet(TAppendPoint(TAppendPoint(S.tr, LblL, proof.L[k]), LblR, proof.R[k]), LAMBDA t3 :
+  ELet(TChallengeValue(t3, LblX), LAMBDA x :
+  ELet(FInv(WR, x), LAMBDA xi :
+    [tr |-> TAfterChallenge(t3, LblX),
+     C  |-> EAdd(S.C, EAdd(EMul(x, proof.L[k]), EMul(xi, proof.R[k]))),
+     b  |-> IPAFoldScalars(IPALo(S.b), IPAHi(S.b), xi),
+     G  |-> IPAFoldPoints(IPALo(S.G), IPAHi(S.G), xi)])))
 IPAVerify(tr0, cfg, ap, C, proof, z, y) ==
   IF Len(proof.L) # Len(proof.R) \/ Len(proof.L) # WRounds
   THEN [ok |-> FALSE, err |-> TRUE, tr |-> TDomainSep(tr0, LblIpa)]
   ELSE
-  LET b0  == IPABVector(ap, z)
-      t1  == TAppendScalar(TAppendScalar(TAppendPoint(TDomainSep(tr0, LblIpa), LblC, C), LblInput, z), LblOutput, y)
-      w   == TChallengeValue(t1, LblW)
-      t2  == TAfterChallenge(t1, LblW)
-      q   == EMul(w, cfg.Q)
-      C0  == EAdd(C, EMul(y, q))
-      st  == FoldLeft(LAMBDA S, k :
-                        LET t3 == TAppendPoint(TAppendPoint(S.tr, LblL, proof.L[k]), LblR, proof.R[k])
-                            x  == TChallengeValue(t3, LblX)
-                            xi == FInv(WR, x)
-                        IN  [tr |-> TAfterChallenge(t3, LblX),
-                             C  |-> EAdd(S.C, EAdd(EMul(x, proof.L[k]), EMul(xi, proof.R[k]))),
-                             b  |-> IPAFoldScalars(IPALo(S.b), IPAHi(S.b), xi),
-                             G  |-> IPAFoldPoints(IPALo(S.G), IPAHi(S.G), xi)],
-                      [tr |-> t2, C |-> C0, b |-> b0, G |-> cfg.G],
-                      [i \in 1 .. WRounds |-> i])
-      rhs == EAdd(EMul(proof.a, st.G[1]), EMul(FMul(WR, proof.a, st.b[1]), q))
-  IN  [ok |-> EEq(st.C, rhs), err |-> FALSE, tr |-> st.tr]
+  ELet(TAppendScalar(TAppendScalar(TAppendPoint(TDomainSep(tr0, LblIpa), LblC, C), LblInput, z), LblOutput, y), LAMBDA t1 :
+  ELet(EMul(TChallengeValue(t1, LblW), cfg.Q), LAMBDA q :
+  ELet(FoldLeft(LAMBDA S, k : IPAVerifyRound(S, proof, k),
+                [tr |-> TAfterChallenge(t1, LblW), C |-> EAdd(C, EMul(y, q)), b |-> IPABVector(ap, z), G |-> cfg.G],
+                [i \in 1 .. WRounds |-> i]), LAMBDA st :
+    [ok |-> EEq(st.C, EAdd(EMul(proof.a, st.G[1]), EMul(FMul(WR, proof.a, st.b[1]), q))), err |-> FALSE, tr |-> st.tr])))
 =============================================================================
